@@ -37,7 +37,7 @@ def de32 : Bytes → Nat
 /-- `filesystem.SaveFile`: `encodeBinaryLength(part) ++ part` for every part -/
 def encodeSegs : List Bytes → Bytes
   | [] => []
-  | s :: ss => le32 s.length ++ s ++ encodeSegs ss
+  | s :: ss => le32 s.length ++ (s ++ encodeSegs ss)
 
 /-- `migrator.parseV1Segments`; `none` = error (the whole swamp then fails in phase "load") -/
 def parseMig : Nat → Bytes → Option (List Bytes)
@@ -194,29 +194,40 @@ def migrate {File : Type} (cfg : MCfg) (v : V2 File) (o : Opts) (ft : Fault) (nm
       (.skippedEmpty, if o.deleteOld && !o.dryRun then deleteV1 ft d else d)
     else if o.dryRun then (.success, d)
     else
-      -- the three effects in the order the code performs them
-      let doWrite (d : Disk File) : Option (Disk File) :=
-        if ft = .write then none else some { d with hyd := some (v.write nm es) }
-      let verifyFails (d : Disk File) : Bool :=
-        o.verify && (ft = .verify || match d.hyd with
+      let del (x : Disk File) : Disk File := if o.deleteOld then deleteV1 ft x else x
+      let written (x : Disk File) : Disk File := { x with hyd := some (v.write nm es) }
+      -- a failed write leaves nothing (`os.Remove`) or a partial file
+      let wfail (x : Disk File) : Disk File :=
+        if cfg.removeOnWriteFail then { x with hyd := none } else { x with hyd := some (v.write nm []) }
+      let vfails (x : Disk File) : Bool :=
+        o.verify && (ft = .verify || match x.hyd with
                                      | some f => !verifyOk cfg v f es
                                      | none => true)
-      let afterVerifyFail (d : Disk File) : Disk File := if cfg.removeOnVerifyFail then { d with hyd := none } else d
-      let del (d : Disk File) : Disk File := if o.deleteOld then deleteV1 ft d else d
-      if !cfg.writeBeforeDelete then
-        -- delete first: everything after it runs on a disk without the V1 files
-        let d1 := del d
-        match doWrite d1 with
-        | none => (.failed "write", if cfg.removeOnWriteFail then { d1 with hyd := none } else { d1 with hyd := some (v.write nm []) })
-        | some d2 => if verifyFails d2 then (.failed "verify", afterVerifyFail d2) else (.success, d2)
-      else
-        match doWrite d with
-        | none => (.failed "write", if cfg.removeOnWriteFail then { d with hyd := none } else { d with hyd := some (v.write nm []) })
-        | some d1 =>
-          if cfg.verifyBeforeDelete then
-            if verifyFails d1 then (.failed "verify", afterVerifyFail d1) else (.success, del d1)
-          else
-            let d2 := del d1
-            if verifyFails d2 then (.failed "verify", afterVerifyFail d2) else (.success, d2)
+      let unwrite (x : Disk File) : Disk File := if cfg.removeOnVerifyFail then { x with hyd := none } else x
+      -- the three effects in the order the code performs them
+      match cfg.writeBeforeDelete, cfg.verifyBeforeDelete with
+      | true, true =>
+        if ft = .write then (.failed "write", wfail d)
+        else if vfails (written d) then (.failed "verify", unwrite (written d))
+        else (.success, del (written d))
+      | true, false =>
+        if ft = .write then (.failed "write", wfail d)
+        else if vfails (del (written d)) then (.failed "verify", unwrite (del (written d)))
+        else (.success, del (written d))
+      | false, _ =>
+        if ft = .write then (.failed "write", wfail (del d))
+        else if vfails (written (del d)) then (.failed "verify", unwrite (written (del d)))
+        else (.success, written (del d))
+
+/-- the migrator with the facts as extracted today, spelled out -/
+def migrateGood {File : Type} (v : V2 File) (o : Opts) (ft : Fault) (nm : String) (d : Disk File) : Res × Disk File :=
+  let segs := allSegs d.v1
+  let es := dedupe good segs
+  if ft = .load || segs.any (fun s => s.key == "") then (.failed "load", d)
+  else if es.isEmpty then (.skippedEmpty, if o.deleteOld && !o.dryRun then deleteV1 ft d else d)
+  else if o.dryRun then (.success, d)
+  else if ft = .write then (.failed "write", { d with hyd := none })
+  else if o.verify && (ft = .verify || !verifyOk good v (v.write nm es) es) then (.failed "verify", { d with hyd := none })
+  else (.success, if o.deleteOld then deleteV1 ft { d with hyd := some (v.write nm es) } else { d with hyd := some (v.write nm es) })
 
 end Hv.Migrate
